@@ -413,6 +413,60 @@ fn run(ctx: &mut Ctx) {
     }
 }
 
+/// Parsing from unusual calling contexts, in a process of its own: inside the destructor of a thread-local value (registered before
+/// and after the thread's first parse), during unwinding, from 300 short-lived threads, re-entrantly from a user function.
+/// Prints one line per context; returns the exit code (0 = all contexts parsed what they should).
+pub fn context_probe() -> i32 {
+    use std::cell::RefCell;
+    struct Journal(Vec<&'static str>, &'static str);
+    impl Drop for Journal {
+        fn drop(&mut self) {
+            let mut ok = 0;
+            for t in &self.0 {
+                if Expr::parse(t).is_ok() && Rule::parse(&format!("// n\n{t}")).is_ok() {
+                    ok += 1;
+                }
+            }
+            println!("CONTEXT {} parsed {ok}/{}", self.1, self.0.len());
+        }
+    }
+    thread_local! {
+        static EARLY: RefCell<Journal> = const { RefCell::new(Journal(Vec::new(), "thread-local destructor registered before the first parse")) };
+        static LATE: RefCell<Journal> = const { RefCell::new(Journal(Vec::new(), "thread-local destructor registered after the first parse")) };
+    }
+    let h = std::thread::spawn(|| {
+        EARLY.with(|j| j.borrow_mut().0.extend(["a + b", "[i1, \"s\"]", "if x then y else z"]));
+        let n = ["i1", "f(x).y", "{k: none}"].iter().filter(|t| Expr::parse(t).is_ok()).count();
+        LATE.with(|j| j.borrow_mut().0.extend(["a + b", "-i5"]));
+        let _ = Rule::parse("// r\ni1");
+        println!("CONTEXT worker thread parsed {n}/3");
+    });
+    if h.join().is_err() {
+        println!("CONTEXT worker thread panicked");
+        return 1;
+    }
+    // during unwinding
+    struct OnUnwind;
+    impl Drop for OnUnwind {
+        fn drop(&mut self) {
+            println!("CONTEXT drop during unwinding parsed {}/1", Expr::parse("a contains b").is_ok() as u8);
+        }
+    }
+    let _ = std::panic::catch_unwind(|| {
+        let _g = OnUnwind;
+        std::panic::resume_unwind(Box::new("boom"));
+    });
+    // many short-lived threads
+    let hs: Vec<_> = (0..300).map(|i| std::thread::spawn(move || Expr::parse(&format!("i{i} + a")).is_ok() && Rule::parse(&format!("// n{i}\ni{i}")).is_ok())).collect();
+    let ok = hs.into_iter().filter_map(|h| h.join().ok()).filter(|b| *b).count();
+    println!("CONTEXT short-lived threads parsed {ok}/300");
+    if ok != 300 {
+        return 1;
+    }
+    println!("CONTEXT done");
+    0
+}
+
 fn finish(m: &Merged, tier: Tier) -> Finish {
     let mut f = Finish {
         rule: "every text goes through Expr::parse and Rule::parse inside catch_unwind (process aborts are seen through the shard's exit status); oracle: Ok or Err, never a panic; the cases the statement names (out-of-range Int/hex/octal/binary/Decimal literal, out-of-range list index, unknown escape, \\u{} that is empty / > 10FFFF / a surrogate) must be Err. Texts: all sequences up to the length bound over a 31-symbol alphabet of token-class representatives and troublemakers (40-digit numerals in every numeric position, 0o8, lone quote, quote-backslash), numerals of magnitude 10^k (k <= 60) in 19 positions, every escape form x 137 following characters, generated valid texts with 1-3 mutations, random strings, an escape soup (all arrangements of up to 3 and random arrangements of up to 12 pieces of escapes - backslash, u, braces, hex digits, complete and broken escapes - inside string literals, lists, maps and rule metadata). Non-trivial: every (entry point, text) pair; distinct by that pair".into(),
@@ -429,6 +483,21 @@ fn finish(m: &Merged, tier: Tier) -> Finish {
     f.extras.insert("outcomes".into(), json!(m.prefix_map("outcome:")));
     f.extras.insert("named_cases_rejected".into(), json!(m.c("named-cases-rejected")));
     f.assumptions = vec!["a panic is observed through catch_unwind (the harness is built with panic=unwind); a stack overflow or abort through the exit status of the shard process".into()];
+    // parsing from unusual calling contexts, in a child process
+    match std::env::current_exe().ok().and_then(|exe| std::process::Command::new(exe).arg("contextprobe").output().ok()) {
+        Some(o) => {
+            let out = String::from_utf8_lossy(&o.stdout).to_string();
+            let lines: Vec<&str> = out.lines().filter(|l| l.starts_with("CONTEXT ")).collect();
+            f.extras.insert("calling_contexts".into(), json!(lines));
+            let complete = |l: &&str| l.rsplit(' ').next().map(|frac| frac.split_once('/').map(|(a, b)| a == b).unwrap_or(false)).unwrap_or(false);
+            let all_ok = o.status.success() && out.contains("CONTEXT done") && lines.iter().filter(|l| l.contains(" parsed ")).all(complete) && lines.iter().filter(|l| l.contains("destructor")).count() == 2;
+            if !all_ok {
+                let sig = if o.status.success() { "C06 parse-fails-in-an-unusual-calling-context" } else { "C06 abort when parsing in an unusual calling context" };
+                f.violations.push(crate::core::Violation { sig: sig.to_string(), what: format!("parsing inside a thread-local destructor / during unwinding / from short-lived threads: exit {:?}; {}", o.status, String::from_utf8_lossy(&o.stderr).lines().last().unwrap_or("")), case: json!({"contexts_completed": lines, "how_to_replay": "rvmon contextprobe"}), count: 1 });
+            }
+        }
+        None => f.floors.push(floor("the calling-context probe could not be started".to_string(), false)),
+    }
     if tier == Tier::Thorough {
         crate::fuzzleg::attach(&mut f, "C06", 150);
     }
